@@ -12,6 +12,7 @@ import (
 	"verifharness/internal/driver"
 	"verifharness/internal/quiesce"
 	"verifharness/internal/rec"
+	"verifharness/internal/run"
 	"verifharness/internal/sched"
 	"verifharness/internal/src"
 )
@@ -358,11 +359,8 @@ func runCase(c driver.Case) driver.Result {
 	if pan != nil {
 		return fail("panic", fmt.Sprint(pan))
 	}
-	deadline := time.Now().Add(2 * time.Second)
-	for r.Terminal() == rec.Next && time.Now().Before(deadline) {
-		time.Sleep(200 * time.Microsecond)
-	}
-	quiesce.Settle(time.Second)
+	run.WaitEvents(r, -1, 3*time.Second, 15*time.Second)
+	quiesce.Settle(5 * time.Second)
 	exp := model(op, cfg, at, cancelAt)
 	// trace
 	var got []string
